@@ -21,6 +21,8 @@ Clauses(m, e) ==
     << <<"C02.lockstep-started", m.started = SetOfSeq(e.started)>>,
        <<"C02.lockstep-completed", m.completed = SetOfSeq(e.completed)>>,
        <<"C02.lockstep-marks", m.marks = e.marks>>,
+       <<"C02.lockstep-failed", m.failed = SetOfSeq(e.failed)>>,
+       <<"C41.lockstep-macro-invocations", \A n \in DOMAIN m.mstart : m.mstart[n] = e.mstart[n] /\ m.mdone[n] = e.mdone[n]>>,
        <<"C04.lockstep-registered", m.registered = SetOfSeq(e.registered)>>,
        <<"C04.lockstep-activated", m.activated = SetOfSeq(e.activated)>>,
        <<"C04.lockstep-alarm-runs", \A n \in DOMAIN m.runs : m.runs[n] = e.runs[n]>>,
